@@ -44,12 +44,12 @@ RULE = ("Rotations drawn per item from 9 recipes (uniform; angle pi+-{0,1e-12..1
 ASSUME = ["lie_ref.group_matrix / quat_R in longdouble; Rz Ry Rx built from longdouble sin/cos of the rounded angles",
           "the scale of a passed matrix is the cube root of its determinant (longdouble cofactor expansion)",
           "tolerances: rotation block 32 u s (64 u s on X.matrix()), unit quaternion 24 u, scale 32 u s, "
-          "translation 4 u |t|; euler2SO3 32 u; round trip 32 u / cos(pitch)",
+          "translation 4 u |t|; euler2SO3 24 u; round trip 24 u / cos(pitch) (+24 u through the library's euler2SO3)",
           "inside the gimbal band |sin pitch| >= 1 - eps - 64u nothing but finiteness is judged",
           "a wrong 4x4 bottom row is documented to warn, not to raise: observed, not judged",
           "empty batches are not in the property's quantifier and are not exercised", "CPU only"]
 
-C_ROT, C_ROT_PP, C_Q, C_S, C_T, C_E2S, C_RT = 32.0, 64.0, 24.0, 32.0, 4.0, 32.0, 32.0
+C_ROT, C_ROT_PP, C_Q, C_S, C_T, C_E2S, C_RT = 32.0, 64.0, 24.0, 32.0, 4.0, 24.0, 24.0
 HAS_T = {"SO3": False, "SE3": True, "RxSO3": False, "Sim3": True}
 HAS_S = {"SO3": False, "SE3": False, "RxSO3": True, "Sim3": True}
 MAT2 = {"SO3": pp.mat2SO3, "SE3": pp.mat2SE3, "RxSO3": pp.mat2RxSO3, "Sim3": pp.mat2Sim3}
@@ -495,7 +495,8 @@ def monitor_check(ck, kind, dn, rng, n_cases, tols):
             fname, f = fn_list[int(rng.integers(0, 2))]
             q, _ = make_quats(rng, 1)
             R = L.quat_R(q)[0]
-            s = make_scales(rng, 1)[0] if HAS_S[kind] else L.LD(1)
+            # documented legality of a scaled input includes |s| > atol: stay a decade above it
+            s = max(make_scales(rng, 1)[0], L.LD(10 * atol)) if HAS_S[kind] else L.LD(1)
             t = make_trans(rng, 1)[0]
             shape = [(), (), (1,), (4,), (2, 2)][int(rng.integers(0, 5))]
             nb = int(np.prod(shape, dtype=np.int64)) if len(shape) else 1
@@ -508,7 +509,7 @@ def monitor_check(ck, kind, dn, rng, n_cases, tols):
             M4 = np.zeros((nb, 4, 4), dtype=L.LD)
             # the other items of the batch are valid elements
             qo, _ = make_quats(rng, nb)
-            so = make_scales(rng, nb) if HAS_S[kind] else np.ones(nb, dtype=L.LD)
+            so = np.maximum(make_scales(rng, nb), L.LD(10 * atol)) if HAS_S[kind] else np.ones(nb, dtype=L.LD)
             M4[:, :3, :3] = so[:, None, None] * L.quat_R(qo)
             M4[:, :3, 3] = make_trans(rng, nb)
             M4[:, 3, 3] = 1
@@ -579,8 +580,8 @@ def bottom_row_observation(ck, kind, dn, rng):
 def run(ck):
     thorough = ck.tier == "thorough"
     rng = ck.rng("c11")
-    N = 1500 if thorough else 400
-    reps = 2 if thorough else 1
+    N = 3000 if thorough else 800
+    reps = 6 if thorough else 1
     job = 0
     for dn in ("f64", "f32"):
         for kind in lie.GRPS:
@@ -607,7 +608,7 @@ def run(ck):
                 job += 1
                 if ck.mine(job):
                     tols = [(1e-5, 1e-5), (1e-3, 1e-3)] + ([(1e-9, 1e-9)] if dn == "f64" else [])
-                    monitor_check(ck, kind, dn, rng, (240 if thorough else 60), tols)
+                    monitor_check(ck, kind, dn, rng, (200 if thorough else 60), tols)
                     bottom_row_observation(ck, kind, dn, rng)
             # requirements (input classes)
             for c in range(4):
